@@ -97,7 +97,10 @@ def default_inlinable(prog, caller, callee, keep):
     if keep is not None and re.search(keep, callee.name):
         return False
     if is_generic(callee):
-        return False
+        # methods of the same generic impl block share their type parameters with the caller
+        same_impl = callee.d.get("impl") is not None and callee.d.get("impl") == caller.d.get("impl")
+        if not same_impl:
+            return False
     nested = callee.name.startswith(caller.name + "::")
     if callee.d.get("pub") and not nested:
         return False
